@@ -10,6 +10,16 @@ ID = "C20"
 PROPS_FILE = "Props/C20.v"
 COQ_IMPORTS = "From SA Require Import Model.HarnessC20."
 GEN_AVAILABLE = set()
+
+
+def _ties():
+    from harness.translate import datasets_tr
+    return [{"name": "datasets.py: NormalDataset fnr/fpr/threshold_at_fnr/threshold_at_fpr/roc/from_metrics/defaults, "
+                     "CorrelatedBernoullilDataset joint probabilities and validity test",
+             "translate": datasets_tr.translate_datasets, "gen_file": "Gen_datasets.v", "tie_file": "Tie_datasets.v"}]
+
+
+TIES = _ties()
 RULE = ("five streams: normal (mu/sigma from dyadic and arbitrary doubles, sigma > 0, both score directions, rates in "
         "(0,1) incl. 1e-9 and 1-1e-9, thresholds within 4 sigma, scalar and array arguments, roc by fnr / fpr / neither / "
         "both), from_metrics (rates in (0,1), supports >= 1, quotients on and off integers), sample (sizes and p_pos "
